@@ -10,8 +10,28 @@ import copy
 import re
 
 # the variables of spec/Replicate.tla (GlobalScope / StageScope / CompScope)
-GLOBAL_VARS = {"rg": 2, "rs": 3, "rc": 3}
-STAGE1_VARS = {"rs": 2}
+GLOBAL_VARS = {"rg": 2, "rs": 3, "rc": 3, "ag": "false"}
+STAGE1_VARS = {"rs": 2}           # C11 runs with svals = <<0, 2>>
+
+
+def _ag(v):
+    return "true" if v % 2 == 1 else "false"
+
+
+def stage_scope(v):
+    """what a stage scope defines when svals[stage] = v > 0 (spec: StageScope / AgLookup)"""
+    return {"rs": v, "ag": _ag(v)}
+
+
+def comp_scope(c):
+    """component-level variables (spec: CompScope / AgLookup)"""
+    d = {}
+    pv = c.get("pv", 0)
+    if pv > 0:
+        d = {"rg": pv, "rs": pv, "rc": pv, "ag": _ag(pv)}
+    if c["rep"] == "vc":
+        d["rc"] = COMP_VARS["rc"]
+    return d
 COMP_VARS = {"rc": 2}
 REP_RENDER = {"n1": 1, "n2": 2, "n3": 3, "n11": 11, "vg": "%(rg)s", "vs": "%(rs)s", "vc": "%(rc)s"}
 TAILS = {"tail": ["/sub/f.txt"], "tail2": ["/x.txt", "/y.txt"]}
@@ -44,12 +64,15 @@ def render_component(c, comps):
     wa = {}
     if c["rep"] != "none":
         wa["replicate"] = REP_RENDER[c["rep"]]
-    if c["g"]:
+    if c.get("av"):
+        wa["aggregate"] = "%(ag)s"          # the flag through a variable (it may resolve to false)
+    elif c["g"]:
         wa["aggregate"] = True
     if wa:
         d["workflowAttributes"] = wa
-    if c["rep"] == "vc":
-        d["variables"] = dict(COMP_VARS)
+    cv = comp_scope(c)
+    if cv:
+        d["variables"] = cv
     return d
 
 
@@ -59,8 +82,10 @@ def render_flowir(case):
     if case.get("order") == "rev":
         out.reverse()
     variables = {"default": {"global": dict(GLOBAL_VARS)}}
-    if any(c["s"] == 1 for c in comps):
-        variables["default"]["stages"] = {1: dict(STAGE1_VARS)}
+    sv = case.get("sv") or [0, 2]
+    stages = {s: stage_scope(sv[s]) for s in (0, 1) if sv[s] > 0 and any(c["s"] == s for c in comps)}
+    if stages:
+        variables["default"]["stages"] = stages
     return {"variables": variables, "components": out}
 
 
